@@ -1,0 +1,62 @@
+//go:build verif
+
+package rueidis
+
+// Add-only exports for the session-level verification observers (C25/C26/C27/C29/C47).
+// Nothing here changes behaviour: wrappers, constructors and accessors only.
+
+import (
+	"context"
+	"net"
+	"sync/atomic"
+
+	"github.com/redis/rueidis/internal/cmds"
+)
+
+// VerifPipe wraps one *pipe created by newPipe / newPipeNoBg.
+type VerifPipe struct{ p *pipe }
+
+// VerifNewPipe runs the real connection setup (_newPipe) on a connection obtained from dial.
+func VerifNewPipe(ctx context.Context, dial func(context.Context) (net.Conn, error), opt *ClientOption, nobg bool) (*VerifPipe, error) {
+	var p *pipe
+	var err error
+	if nobg {
+		p, err = newPipeNoBg(ctx, dial, opt)
+	} else {
+		p, err = newPipe(ctx, dial, opt)
+	}
+	if err != nil {
+		return nil, err
+	}
+	return &VerifPipe{p: p}, nil
+}
+
+func (v *VerifPipe) Do(ctx context.Context, cmd Completed) RedisResult { return v.p.Do(ctx, cmd) }
+func (v *VerifPipe) DoMulti(ctx context.Context, multi ...Completed) []RedisResult {
+	return v.p.DoMulti(ctx, multi...).s
+}
+func (v *VerifPipe) Receive(ctx context.Context, subscribe Completed, fn func(PubSubMessage)) error {
+	return v.p.Receive(ctx, subscribe, fn)
+}
+func (v *VerifPipe) SetPubSubHooks(h PubSubHooks) <-chan error { return v.p.SetPubSubHooks(h) }
+func (v *VerifPipe) CleanSubscriptions()                        { v.p.CleanSubscriptions() }
+func (v *VerifPipe) Close()                                     { v.p.Close() }
+func (v *VerifPipe) Error() error                               { return v.p.Error() }
+func (v *VerifPipe) Version() int                               { return v.p.Version() }
+func (v *VerifPipe) IsRESP2() bool                              { return v.p.r2p != nil || v.p.r2ps }
+func (v *VerifPipe) State() int32                               { return atomic.LoadInt32(&v.p.state) }
+
+// VerifSentinelOpt is sentinel.go newSentinelOpt.
+func VerifSentinelOpt(opt *ClientOption) *ClientOption { return newSentinelOpt(opt) }
+
+// VerifNoHello reports whether an error text is what _newPipe takes for "the server does not know HELLO".
+func VerifNoHello(text string) bool { return noHello.MatchString(text) }
+
+// VerifHooksWithInvalidations returns hooks carrying an invalidation callback (the field is unexported).
+func VerifHooksWithInvalidations(h PubSubHooks, fn func([]RedisMessage)) PubSubHooks {
+	h.onInvalidations = fn
+	return h
+}
+
+// VerifBuilder returns a command builder that is not bound to a client.
+func VerifBuilder() Builder { return cmds.NewBuilder(cmds.NoSlot) }
